@@ -223,10 +223,13 @@ func (t *stdioClientTransport) sendRequest(ctx context.Context, req *JSONRPCRequ
 
 	// Clean up on exit.
 	defer func() {
+		// Responses are delivered under the read lock, and close() may already have closed the channel.
 		t.pendingMutex.Lock()
-		delete(t.pendingRequests, reqID)
+		if _, registered := t.pendingRequests[reqID]; registered {
+			delete(t.pendingRequests, reqID)
+			close(respChan)
+		}
 		t.pendingMutex.Unlock()
-		close(respChan)
 	}()
 
 	// Send request.
@@ -240,7 +243,10 @@ func (t *stdioClientTransport) sendRequest(ctx context.Context, req *JSONRPCRequ
 
 	// Wait for response or timeout.
 	select {
-	case resp := <-respChan:
+	case resp, ok := <-respChan:
+		if !ok {
+			return nil, fmt.Errorf("transport closed")
+		}
 		return resp, nil
 	case <-ctx.Done():
 		return nil, ctx.Err()
@@ -400,9 +406,10 @@ func (t *stdioClientTransport) handleResponse(rawMessage json.RawMessage) {
 		return
 	}
 
+	// The read lock is held until the response has been handed over: the requester closes its channel under the write lock.
 	t.pendingMutex.RLock()
+	defer t.pendingMutex.RUnlock()
 	respChan, exists := t.pendingRequests[reqID]
-	t.pendingMutex.RUnlock()
 	verifhook.Yield("stdio-client:response-looked-up")
 
 	if !exists {
@@ -459,9 +466,10 @@ func (t *stdioClientTransport) handleErrorResponse(rawMessage json.RawMessage) {
 		return
 	}
 
+	// The read lock is held until the response has been handed over: the requester closes its channel under the write lock.
 	t.pendingMutex.RLock()
+	defer t.pendingMutex.RUnlock()
 	respChan, exists := t.pendingRequests[reqID]
-	t.pendingMutex.RUnlock()
 	verifhook.Yield("stdio-client:response-looked-up")
 
 	if !exists {
